@@ -67,6 +67,11 @@ var witnesses = []witness{
 	{"dec", "p", "g1.v1.RW", strings.Repeat(`{"any":{"!type":"g1.v1.RW","value":`, 100) + `{}` + strings.Repeat(`}}`, 100)},
 	{"dec", "p", "g1.v1.RW", strings.Repeat(`{"any":{"!type":"g1.v1.RW","value":`, 101) + `{}` + strings.Repeat(`}}`, 101)},
 	{"dec", "n", "g1.v1.RW", strings.Repeat(`{"any":{"!type":"g1.v1.RW","value":`, 101) + `{}` + strings.Repeat(`}}`, 101)},
+	// seeded C03-m8: 64-bit integers in float syntax above 2^53 (a reader going through float64 stores a neighbour)
+	{"dec", "n", "test.schema.v1.FullSchema", `{"sInt64":9007199254740993.0}`},
+	{"dec", "n", "test.schema.v1.FullSchema", `{"sInt64":1.8014398509481985e16}`},
+	{"dec", "n", "test.schema.v1.FullSchema", `{"sInt64":-9223372036854775809.0}`},
+	{"dec", "n", "test.schema.v1.FullSchema", `{"sUint64":9007199254740993e0}`},
 	{"query", "n", "test.schema.v1.FullSchema", "sString"},
 	{"query", "n", "test.schema.v1.FullSchema", "sBool=true"},
 	{"query", "n", "test.schema.v1.FullSchema", "rBool=true&false"},
@@ -87,6 +92,11 @@ var witnesses = []witness{
 	{"enc", "n", "test.schema.v1.FullSchema", `(msg (2 (s -)) (10 (b 0)) (42 (msg)))`},
 	{"enc", "n", "test.schema.v1.FullSchema", `(msg (32 (e 7)))`},
 	{"enc", "n", "test.schema.v1.FullSchema", `(msg (1 (s ff)))`},
+	// seeded C08-m7: bytes longer than one chunk of a streaming base64 writer (1025 and 3073 bytes)
+	{"enc", "n", "test.schema.v1.FullSchema", `(msg (34 (y ` + strings.Repeat("00ff10fb", 256) + `a5)))`},
+	{"enc", "n", "test.schema.v1.FullSchema", `(msg (34 (y ` + strings.Repeat("00ff10fb", 768) + `a5)))`},
+	// seeded C08-m8: map keys a Go-syntax quoter writes as \a \v \x1f \x7f \U000e0001 (not JSON)
+	{"enc", "n", "test.schema.v1.FullSchema", `(msg (36 (map (07 (s 61)) (0b (s 62)) (1f (s 63)) (7f (s -)) (f3a08081 (s 64)))))`},
 }
 
 // stressWitnesses: exponents far beyond maxDecimalExponent in every spelling (bare / quoted, e / E,
